@@ -283,6 +283,10 @@ def _post_fit(call):
                     #  constant in i - so the far value only has to stay below the value at the returned delta)
                     if e2 >= e0 >= e1 >= e10 and e1000 <= e0 * (1 + 1e-3):
                         mech2 = "ew-lsq-free-delta-runs-to-infinity"
+                    elif max(abs(e1 - e0), abs(e2 - e0)) <= 1e-5 * abs(e0) and abs(e10 - e0) <= 1e-3 * abs(e0):
+                        # the same runaway, seen where the valley is flat to 1e-5 (the reference itself resolves no slope
+                        # there): the search ended at its iteration limit, not at a minimiser
+                        mech2 = "ew-lsq-free-delta-runs-to-infinity"
             c.check("c13.delta-local-min", okmin, "EW least squares: free delta is not a local minimiser of the weighted quantile error", mech2, e_at=e0, e_up=e1, e_down=e2, **info)
         except Exception as e:  # noqa: BLE001
             c.inconcl(f"reference error function failed: {e}")
